@@ -42,6 +42,8 @@ pub struct Checks {
     pub error_unchanged: bool,
     pub ids_orbits: bool,
     pub alloc: bool,
+    /// statement-level kernel oracles (C13, C14, C15)
+    pub kernels: bool,
 }
 
 #[derive(Clone, Debug)]
@@ -73,6 +75,11 @@ pub struct HistProbes {
     pub alloc_reuse: u64,
     pub alloc_append: u64,
     pub callbacks: u64,
+    pub k_premise_failed: u64,
+    pub k_checked_success: u64,
+    pub k_checked_refusal: u64,
+    pub k_must_succeed: u64,
+    pub k_ok: std::collections::BTreeMap<String, u64>,
 }
 
 pub struct HistOut {
@@ -197,6 +204,28 @@ pub fn run_history_with(h: &History, checks: Checks, stop_at_first: bool, source
             }
         }
         if let (Step::Tx(tx), Some(o)) = (step, &out) {
+            if checks.kernels && tx.ops.len() == 1 {
+                let res: Result<crate::ops::Res, String> = match &o.value {
+                    TxValue::Ok(v) => Ok(v[0].clone()),
+                    TxValue::Err(_, e) => Err(e.clone()),
+                    TxValue::Abandoned => Err("Abandoned".into()),
+                };
+                let mut kp = crate::koracle::KProbe::default();
+                let mut fs = crate::koracle::check_remesh(&pre, &post, &tx.ops[0], &res, &mut kp);
+                fs.extend(crate::koracle::check_insert(&pre, &post, &tx.ops[0], &res, &mut kp));
+                fs.extend(crate::koracle::check_triangulate(&pre, &post, &tx.ops[0], &res, &mut kp));
+                probes.k_premise_failed += u64::from(kp.premise_failed);
+                probes.k_checked_success += u64::from(kp.checked_success);
+                probes.k_checked_refusal += u64::from(kp.checked_refusal);
+                probes.k_must_succeed += u64::from(kp.must_succeed);
+                if res.is_ok() {
+                    let name: String = format!("{:?}", tx.ops[0]).chars().take_while(|c| c.is_alphanumeric()).collect();
+                    *probes.k_ok.entry(name).or_default() += 1;
+                }
+                for f in fs {
+                    findings.push(StepFinding { step: si, finding: f });
+                }
+            }
             probes.callbacks += u64::from(o.callbacks);
             if o.attempts > 1 {
                 probes.reexecuted += 1;
